@@ -65,6 +65,11 @@ def cut(rng, lines, ncuts, main_rel="m/main.conf"):
         i, j = rng.choice(ranges)
         name = "frag%d%s.conf" % (k, rng.choice(["", " x", "-é"]))
         base = posixpath.dirname(rel)
+        # sometimes the fragment's name differs from its includer's ONLY in letter case (distinct resources, distinct URLs)
+        twin = posixpath.basename(rel).swapcase()
+        if where == "same" and rng.random() < 0.25 and twin != posixpath.basename(rel) and \
+                posixpath.normpath(posixpath.join(base, twin)) not in docs:
+            name = twin
         if where == "same":
             frel, arg = posixpath.join(base, name), name
         elif where == "sub":
